@@ -149,7 +149,7 @@ impl BuildChecksumer for OrdSum {
 }
 
 // ---------------------------------------------------------------------------------------------
-// Typed-allocation table: T_A_S, A in {1,2,4,8,16}, S in 0..=64 a multiple of A
+// Typed-allocation table: T_A_S, A in {1,2,4,8,16}, S in 0..=64 a multiple of A; A in {32,64}, S in 0..=128
 // ---------------------------------------------------------------------------------------------
 
 /// A member of the typed-allocation table.
@@ -168,7 +168,7 @@ macro_rules! aligned_ty {
     }
   )*};
 }
-aligned_ty!(A1 = 1, A2 = 2, A4 = 4, A8 = 8, A16 = 16);
+aligned_ty!(A1 = 1, A2 = 2, A4 = 4, A8 = 8, A16 = 16, A32 = 32, A64 = 64);
 
 /// Generic code to run for the table entry selected at run time.
 pub trait TyVisitor {
@@ -195,15 +195,19 @@ pub fn dispatch<V: TyVisitor>(a: u64, s: u64, v: V) -> Option<V::Out> {
           62 64]
     A4 4 [0 4 8 12 16 20 24 28 32 36 40 44 48 52 56 60 64]
     A8 8 [0 8 16 24 32 40 48 56 64]
-    A16 16 [0 16 32 48 64])
+    A16 16 [0 16 32 48 64]
+    A32 32 [0 32 64 96 128]
+    A64 64 [0 64 128])
 }
 
 /// Is (a, s) a member of the typed-allocation table?
 pub fn in_table(a: u64, s: u64) -> bool {
-  matches!(a, 1 | 2 | 4 | 8 | 16) && s <= 64 && s % a == 0
+  (matches!(a, 1 | 2 | 4 | 8 | 16) && s <= 64 && s % a == 0) || (matches!(a, 32 | 64) && s <= 128 && s % a == 0)
 }
 
 static DROPS: AtomicUsize = AtomicUsize::new(0);
+/// address alignment the current case's arena guarantees (set by `open_case`)
+static GUARANTEED_ALIGN: std::sync::atomic::AtomicU64 = std::sync::atomic::AtomicU64::new(8);
 
 /// A `needs_drop` type (size 8, align 8); dropping it increments a global counter that the
 /// harness resets at the start of every case.
@@ -745,6 +749,9 @@ impl<A: Flavour> Case<A> {
   /// Builds the arena of a case. Returns the case (if the arena exists) and the answer line.
   pub fn open(cfg: &Cfg, tmp: &Path, case_no: u64) -> (Option<Self>, String) {
     DropCounter::reset();
+    // the address alignment the arena guarantees: `maximum_alignment` (at least that of the header) for the Vec
+    // backend, a page for the mappings
+    GUARANTEED_ALIGN.store(if cfg.backend == 0 { (cfg.maxalign as u64).max(8) } else { 4096 }, Ordering::Relaxed);
     let file = (cfg.backend == 2).then(|| tmp.join(format!("case-{case_no}.arena")));
     let built = catch_unwind(AssertUnwindSafe(|| -> Result<A, String> {
       let o = cfg.options();
@@ -862,6 +869,8 @@ impl<A: Flavour> Case<A> {
     let mut s = format!("r=ok off={off} cap={cap} boff={boff} bcap={bcap}");
     if let Some(a) = am {
       // a handle without accessible bytes has nothing to align (its pointer may be dangling)
+      // ... and a type more strictly aligned than the arena's configured maximum is only aligned that far
+      let a = a.min(GUARANTEED_ALIGN.load(Ordering::Relaxed)).max(1);
       let am = if cap == 0 { 0 } else { slot.ptr() as usize as u64 % a };
       s.push_str(&format!(" am={}", am));
     }
@@ -1121,9 +1130,54 @@ impl<A: Flavour> Case<A> {
             _ => return None,
           }}};
         }
+        // independent reference: canonical LEB128 (zig-zag for the signed types) decoded from `memory()` below
+        // `allocated()`; `none` when the bytes there are not a complete canonical encoding that fits the type
+        let (bits, signed): (u32, bool) = match ty {
+          "u16" => (16, false), "u32" => (32, false), "u64" => (64, false), "u128" => (128, false),
+          "i16" => (16, true), "i32" => (32, true), "i64" => (64, true), "i128" => (128, true),
+          _ => return None,
+        };
+        let reference = (|| -> Option<String> {
+          let al = a.allocated();
+          let m = a.memory();
+          if off >= al || al > m.len() {
+            return None;
+          }
+          let maxb = ((bits + 6) / 7) as usize;
+          let w = &m[off..al.min(off + maxb)];
+          let mut v: u128 = 0;
+          let mut n = 0usize;
+          loop {
+            let b = *w.get(n)?;
+            let part = (b & 0x7f) as u128;
+            let sh = 7 * n as u32;
+            if sh > 0 && (part << sh) >> sh != part {
+              return None; // does not fit 128 bits
+            }
+            v |= part << sh;
+            n += 1;
+            if b & 0x80 == 0 {
+              break;
+            }
+          }
+          if bits < 128 && v >> bits != 0 {
+            return None;
+          }
+          let need = (((128 - v.leading_zeros()).max(1) + 6) / 7) as usize;
+          if need != n {
+            return None; // over-long encoding: not canonical, no claim
+          }
+          Some(if signed {
+            let z = ((v >> 1) as i128) ^ -((v & 1) as i128);
+            format!("{n}:{z}")
+          } else {
+            format!("{n}:{v}")
+          })
+        })()
+        .unwrap_or_else(|| "none".to_string());
         match rdv!(u16 u32 u64 u128 i16 i32 i64 i128) {
-          Ok((n, v)) => format!("r=ok n={n} val={v}"),
-          Err(e) => format!("r={}", err_name(&e)),
+          Ok((n, v)) => format!("r=ok n={n} val={v} vref={reference}"),
+          Err(e) => format!("r={} vref={reference}", err_name(&e)),
         }
       }
       "slices" => {
@@ -1138,7 +1192,10 @@ impl<A: Flavour> Case<A> {
       }
       "checksum" => {
         argc(2)?;
-        let reference = &a.allocated_memory()[a.reserved_slice().len()..];
+        // the property's own words: `allocated_memory()[reserved_bytes()..]` (not `reserved_slice().len()`, which is
+        // what the crate's `checksum` uses internally)
+        let am = a.allocated_memory();
+        let reference = am.get(a.reserved_bytes()..).unwrap_or(&[]);
         let (val, rf) = match t[1] {
           "crc32" => (a.checksum(&Crc32::new()), crc32fast::hash(reference) as u64),
           "ordsum" => (a.checksum(&OrdSum), OrdSum.checksum_one(reference)),
@@ -1491,23 +1548,29 @@ struct Reopen {
   sync: bool,
   reserved: u32,
   minseg: u32,
-  /// optional 10th token `trunc=1`: the Options value carries `with_truncate(true)`; only meaningful (and only
+  /// optional token `trunc=1`: the Options value carries `with_truncate(true)`; only meaningful (and only
   /// accepted) for the read-only modes, whose open must clear it
   trunc: bool,
+  /// optional token `pb=1`: open through the `*_with_path_builder` entry point of the same mode
+  pb: bool,
 }
 
 impl Reopen {
   /// `same_cap`: what `cap=same` stands for
   fn parse(t: &[&str], same_cap: u32) -> Option<Reopen> {
-    if (t.len() != 9 && t.len() != 10) || t[0] != "reopen" {
+    if t.len() < 9 || t.len() > 11 || t[0] != "reopen" {
       return None;
     }
-    let trunc = match t.get(9) {
-      None => false,
-      Some(&"trunc=0") => false,
-      Some(&"trunc=1") => true,
-      _ => return None,
-    };
+    let (mut trunc, mut pb) = (false, false);
+    for x in &t[9..] {
+      match *x {
+        "trunc=0" => trunc = false,
+        "trunc=1" => trunc = true,
+        "pb=0" => pb = false,
+        "pb=1" => pb = true,
+        _ => return None,
+      }
+    }
     if trunc && !matches!(t[1], "ro" | "copy_ro") {
       return None;
     }
@@ -1540,6 +1603,7 @@ impl Reopen {
       reserved: val(7, "reserved")?.parse().ok()?,
       minseg: val(8, "minseg")?.parse().ok()?,
       trunc,
+      pb,
     })
   }
 }
@@ -1605,12 +1669,19 @@ impl<A: Flavour> Case<A> {
       if r.trunc {
         o = o.with_truncate(true);
       }
+      let pbf = || -> Result<std::path::PathBuf, std::io::Error> { Ok(path.to_path_buf()) };
       unsafe {
-        match r.mode {
-          MapMode::Mut => o.map_mut::<A, _>(path),
-          MapMode::Copy => o.map_copy::<A, _>(path),
-          MapMode::Ro => o.map::<A, _>(path),
-          MapMode::CopyRo => o.map_copy_read_only::<A, _>(path),
+        match (r.mode, r.pb) {
+          (MapMode::Mut, false) => o.map_mut::<A, _>(path),
+          (MapMode::Copy, false) => o.map_copy::<A, _>(path),
+          (MapMode::Ro, false) => o.map::<A, _>(path),
+          (MapMode::CopyRo, false) => o.map_copy_read_only::<A, _>(path),
+          (MapMode::Mut, true) => o.map_mut_with_path_builder::<A, _, std::io::Error>(pbf).map_err(|e| e.into_inner()),
+          (MapMode::Copy, true) => o.map_copy_with_path_builder::<A, _, std::io::Error>(pbf).map_err(|e| e.into_inner()),
+          (MapMode::Ro, true) => o.map_with_path_builder::<A, _, std::io::Error>(pbf).map_err(|e| e.into_inner()),
+          (MapMode::CopyRo, true) => {
+            o.map_copy_read_only_with_path_builder::<A, _, std::io::Error>(pbf).map_err(|e| e.into_inner())
+          }
         }
       }
     }));
@@ -1666,9 +1737,11 @@ impl Session {
         if closed {
           return Some("r=closed".to_string());
         }
-        // `Drop for Case`: detach + drop every handle, then drop every arena value
+        // `Drop for Case`: detach + drop every handle, then drop every arena value.
+        // `um` = how many times the backing memory was REALLY released meanwhile (Hook::unmount): must be 1
+        let before = seq_hook::unmounts();
         self.case = None;
-        format!("r=ok {}", sig())
+        format!("r=ok um={} {}", seq_hook::unmounts() - before, sig())
       }
       "reopen" => {
         if !closed {
@@ -1813,4 +1886,35 @@ pub fn open_session(
     Box::new(Session { cfg, force_sync: ov.sync, file, case: Some(c) }) as Box<dyn CaseApi>
   });
   (session, ans)
+}
+
+
+/// The hook of the `seq` binary: passes every access through and counts the real releases of backing memory.
+pub mod seq_hook {
+  use rarena_allocator::verif::{self, Access, Decision, Hook, Outcome};
+  use std::sync::atomic::{AtomicU64, Ordering};
+
+  static UNMOUNTS: AtomicU64 = AtomicU64::new(0);
+  struct SeqHook;
+  static HOOK: SeqHook = SeqHook;
+
+  impl Hook for SeqHook {
+    fn before(&self, _a: &Access) -> Decision {
+      Decision::Proceed
+    }
+    fn after(&self, _a: &Access, _o: &Outcome) {}
+    fn unmount(&self, _base: usize, _cap: usize) {
+      UNMOUNTS.fetch_add(1, Ordering::Relaxed);
+    }
+  }
+
+  /// number of `Memory::unmount` calls so far in this process
+  pub fn unmounts() -> u64 {
+    UNMOUNTS.load(Ordering::Relaxed)
+  }
+
+  /// installs the hook (the `seq` binary only; `sched` installs its own)
+  pub fn install() {
+    let _ = verif::set_hook(&HOOK);
+  }
 }
